@@ -8,18 +8,24 @@ extracted) runs on Rust's (raw, minimised) pairs."""
 from .. import build, gen, impl, model, report, sexp
 
 MANIFEST = dict(
-    text=('Theorem C03_validated (Props/C03.v): whenever the verified validator accepts a pair (d, m) -- product exploration '
-          'equiv_dec d m = EqYes, trim_dec m, distinct_dec m (Moore refinement), all proved sound in Coq w.r.t. Dfa.accepts -- '
-          'then m accepts exactly the word sequences d accepts, every state of m is reachable and co-reachable, any two states '
-          'of m are told apart by some continuation, and no automaton of the same language has fewer states (Myhill-Nerode '
-          'consequence, proved). The extracted validator is run on Rust\'s own (raw, minimised) automata, main and within-word, '
-          'for every generated grammar: that is the judgement of the implementation. Theorems about the faithful Gallina model '
-          'of do_minimize (Hopcroft with dead state, find_bounds window, intern pool, the three post-passes, renumbering): see '
-          'Props/C03.v and REPORT-minimize.md for what is proved about the model itself. Tie T1: the extracted model applied '
-          'to Rust\'s raw automaton reproduces Rust\'s minimised automaton exactly (same numbering, same transition order).'),
+    text=('Theorem C03_total / C03_minimise (Props/C03.v), proved in Coq 8.16 without axioms for the faithful Gallina model of '
+          'do_minimize (Hopcroft loop with the dead state 0, make_transitions_image, the find_bounds window, SetInternPool, the '
+          'work-list rule with the smaller half, block minima as representatives, keep_only_states_with_input_transitions, '
+          'eliminate_nonaccepting_states_without_output_transitions, renumber_states, hashmap_transitions_from_vec): for every '
+          'well-formed trim automaton d (what dfa_from_regex produces; both hypotheses are re-checked executably on every raw '
+          'automaton Rust produces), minimize d returns some m (no panic site reachable, fuel linear in the number of states), '
+          'm accepts exactly the word sequences d accepts, every state of m is reachable and co-reachable, any two states of m '
+          'are told apart by some continuation, and no automaton of the same language has fewer states (Myhill-Nerode). '
+          'C03_partition: the loop ends in the Nerode partition; C03_order_independent: every order of the three hash iterations '
+          'gives the same partition and the model is one such run. The model is tied to src/dfa.rs by running the extracted model '
+          'on Rust\'s own RAW automata (main and every within-word one) and comparing with Rust\'s MIN exactly (numbering and '
+          'transition order). Independently, the implementation is judged directly: a validator proved sound and complete in Coq '
+          '(product exploration equiv_dec with distinguishing word, trim_dec, Moore refinement distinct_dec; '
+          'C03_validator_sound/_complete) is run, extracted, on every (raw, minimised) pair Rust produces.'),
     design='6 C03, Appendix A.1',
-    technique='Coq-verified validator (translation validation of every minimisation run) + Coq theorems about the model + '
-              'extracted-model/implementation correspondence (exhaustive small grammars + biased random)')
+    technique='Coq theorem about the faithful model (total correctness of minimisation) + extracted-model/implementation exact '
+              'correspondence on Rust\'s raw automata + Coq-verified translation validator on every Rust minimisation run '
+              '(exhaustive small grammars + biased random)')
 
 LEAVES = [('lit', 'a', None), ('lit', 'b', None)]
 SUBLEAVES = [('lit', 'x', None), ('lit', 'y', None)]
@@ -136,6 +142,36 @@ def subword(r, depth):
     return ('sub', fs)
 
 
+def word_loop(r):
+    """within-word loops around alternatives sharing a suffix: --k=(x(z|w) | y(z|w))... and the like"""
+    def lit():
+        return ('lit', r.choice(['x', 'y', 'z', 'w']), None)
+
+    def tail():
+        k = r.random()
+        if k < 0.5:
+            return ('alt', [lit(), lit()])
+        if k < 0.75:
+            return ('opt', lit())
+        return ('many', ('alt', [lit(), lit()]))
+
+    t = tail()
+    alts = []
+    for _ in range(r.choice([2, 2, 3])):
+        if r.random() < 0.7:
+            alts.append(('sub', [lit(), t]))
+        else:
+            alts.append(('sub', [lit(), tail()]))
+    body = ('alt', alts)
+    if r.random() < 0.7:
+        body = ('many', body)
+    fs = [('lit', r.choice(['--k=', '-', 'p:']), None), body]
+    if r.random() < 0.4:
+        fs.append(('alt', [('lit', '.', None), ('lit', ',', None)]))
+        fs.append(tail())
+    return ('sub', fs)
+
+
 def grammars(ctx):
     """-> list of (family, text bytes)"""
     r = ctx['rng']
@@ -166,11 +202,16 @@ def grammars(ctx):
         elif x < 0.75:
             e = rexpr(r, r.choice([2, 3, 3, 4]), alpha)
             fam = 'random'
-        elif x < 0.9:
+        elif x < 0.83:
             e = ('seq', [('lit', r.choice(alpha), None), subword(r, r.choice([2, 3]))])
             if r.random() < 0.5:
                 e = ('seq', [e, ('many', subword(r, 2))])
             fam = 'word'
+        elif x < 0.9:
+            e = word_loop(r)
+            if r.random() < 0.3:
+                e = ('seq', [('lit', r.choice(alpha), None), ('opt', e)])
+            fam = 'word-loop'
         else:
             out.append(('general', gen.show_grammar(g.grammar()).encode()))
             continue
